@@ -4,10 +4,15 @@ import Std.Data.HashSet
 /-!
 Driver for C22.
 
-request : `<sim|real> <wp|bp> p=<par> soe=<0|1> can=<no|pre|ext> cb=<0|1> jobs=<co|ce|cp|cc|no|ne,…|-> sch=<kind>:<seed> it=<k> cov=<0|1>`
+request : `<sim|real> <wp|bp> p=<par> soe=<0|1> can=<no|pre|ext> cb=<0|1> jobs=<co|ce|cp|cc|so|se|sc|no|ne,…|-> sch=<kind>:<seed> it=<k> cov=<0|1>`
+          (`so/se/sc` = `co/ce/cc` whose operation takes a few milliseconds on real threads: the jobs
+          behind it are queued while it runs; the model does not distinguish them)
 impl    : the set of distinct observations of `it` executions of the real code, joined by `|`;
-          one observation = `n=<total>;r=<idx><S|F|C>.…;s=<successful>;f=<failed>;c=<0|1>;p=<t/c/f/r|->;ran=<idx.…>;prov=<idx.…>`
-          or `hang` (execute did not return).
+          one observation = `n=<total>;r=<idx><S|F|C>.…;s=<successful>;f=<failed>;c=<0|1>;p=<t/c/f/r|->;ran=<idx.…>;prov=<idx.…>;b=<success_count/failure_count/cancelled_count/all_successful/rate-ok>[;bad=<snapshot>]`
+          or `hang` (execute did not return).  `b` = `result.rs` arithmetic on the returned results
+          (`BatchResult::{success_count,failure_count,cancelled_count,all_successful}`,
+          `BatchSummary::success_rate`); `bad` = a progress snapshot seen by the callback that is
+          out of bounds or goes backwards.
 
 `cov=1` (tiny configurations, many schedules): the observed set must EQUAL the model's set.
 
@@ -34,6 +39,9 @@ def parseJob : String → Option JobSpec
   | "ce" => some ⟨true, .err, false⟩
   | "cp" => some ⟨true, .panic, false⟩
   | "cc" => some ⟨true, .ok, true⟩
+  | "so" => some ⟨true, .ok, false⟩
+  | "se" => some ⟨true, .err, false⟩
+  | "sc" => some ⟨true, .ok, true⟩
   | "no" => some ⟨false, .ok, false⟩
   | "ne" => some ⟨false, .err, false⟩
   | _ => none
@@ -55,7 +63,8 @@ def parseReq (req : String) : Option Req :=
         if can ≠ "no" ∧ can ≠ "pre" ∧ can ≠ "ext" then none else
         if api = "bp" ∧ can = "ext" then none else
         if api = "wp" ∧ cb = "1" then none else
-        if api = "bp" ∧ (js.splitOn ",").contains "cc" then none else
+        if api = "bp" ∧ ((js.splitOn ",").contains "cc" ∨ (js.splitOn ",").contains "sc") then none else
+        if par = 0 ∧ cb = "1" then none else
         some { api := api, cb := cb = "1", par := par, cov := cov = "cov=1",
                cfg := { jobs := jl, workers := par, soe := soe = "1", pre := can = "pre",
                         ext := can = "ext", monitor := api = "bp" ∧ cb = "1" } }
@@ -76,7 +85,9 @@ def obsOf (r : Req) (s : St) : String :=
   let res := dotted (sm.map fun m => toString m.1 ++ kindChar m.2)
   let p := if r.api = "bp" ∧ ¬ r.cb then "-"
            else s!"{n}/{s.completed}/{s.failed}/{s.running}"
-  s!"n={n};r={res};s={countKind .success sm};f={countKind .failed sm};c={b01 s.cancelled};p={p};ran={dotted (s.ranLog.map toString)};prov={dotted (s.provLog.map toString)}"
+  let (sc, fc, cc) := resultCounts sm
+  let (ts, tf) := tally sm
+  s!"n={n};r={res};s={ts};f={tf};c={b01 s.cancelled};p={p};ran={dotted (s.ranLog.map toString)};prov={dotted (s.provLog.map toString)};b={sc}/{fc}/{cc}/{b01 (allSuccessful sm)}/1"
 
 partial def explore (cfg : Cfg) (todo : List St) (seen : Std.HashSet St) (finals : List St) (hang : Bool) :
     List St × Bool × Nat :=
@@ -93,7 +104,7 @@ partial def explore (cfg : Cfg) (todo : List St) (seen : Std.HashSet St) (finals
 def reachableFinals (r : Req) : List String × Nat :=
   if r.api = "bp" ∧ r.cfg.jobs.isEmpty then
     -- `execute`: `if total_jobs == 0 { return Ok(BatchSummary::empty()) }`
-    (["n=0;r=-;s=0;f=0;c=0;p=-;ran=-;prov=-"], 0)
+    (["n=0;r=-;s=0;f=0;c=0;p=-;ran=-;prov=-;b=0/0/0/1/1"], 0)
   else
     let s0 := init r.cfg
     let (fin, hang, nst) := explore r.cfg [s0] (Std.HashSet.emptyWithCapacity.insert s0) [] false
@@ -110,6 +121,8 @@ structure Obs where
   prog : Option (List Nat)
   ran : List Nat
   prov : List Nat
+  b : List Nat
+  bad : Bool
 
 def parseDotNat (s : String) : Option (List Nat) :=
   if s = "-" then some [] else (s.splitOn ".").mapM String.toNat?
@@ -123,17 +136,21 @@ def parseRes (s : String) : Option (List (Nat × String)) :=
     | [] => none
 
 def parseObs (o : String) : Option Obs :=
-  match o.splitOn ";" with
-  | [n, r, s, f, _c, p, ran, prov] =>
+  let fs := o.splitOn ";"
+  let (fs, bad) := match fs.reverse with
+    | l :: rest => if l.startsWith "bad=" then (rest.reverse, true) else (fs, false)
+    | [] => (fs, false)
+  match fs with
+  | [n, r, s, f, _c, p, ran, prov, b] =>
     match (field "n=" n).bind String.toNat?, (field "r=" r).bind parseRes, (field "s=" s).bind String.toNat?,
           (field "f=" f).bind String.toNat?, field "p=" p, (field "ran=" ran).bind parseDotNat,
-          (field "prov=" prov).bind parseDotNat with
-    | some n, some res, some s, some f, some p, some ran, some prov =>
+          (field "prov=" prov).bind parseDotNat, (field "b=" b).bind (fun t => (t.splitOn "/").mapM String.toNat?) with
+    | some n, some res, some s, some f, some p, some ran, some prov, some b =>
       let prog := if p = "-" then some none else ((p.splitOn "/").mapM String.toNat?).map some
       match prog with
-      | some prog => some { n := n, res := res, s := s, f := f, prog := prog, ran := ran, prov := prov }
+      | some prog => some { n := n, res := res, s := s, f := f, prog := prog, ran := ran, prov := prov, b := b, bad := bad }
       | none => none
-    | _, _, _, _, _, _, _ => none
+    | _, _, _, _, _, _, _, _ => none
   | _ => none
 
 def cnt (k : String) (res : List (Nat × String)) : Nat := (res.filter fun m => m.2 = k).length
@@ -147,11 +164,22 @@ def verdict (r : Req) (o : String) : List String :=
     let n := r.cfg.jobs.length
     let c1 := if ob.n = n ∧ ob.res.map (·.1) = List.range n then [] else ["missing-result"]
     let c2 := if ob.s = cnt "S" ob.res ∧ ob.f = cnt "F" ob.res then [] else ["counts-mismatch"]
+    -- progress counters end consistent with the results: completed = #Success, failed = #Failed,
+    -- nothing running, completed + failed + #Cancelled = total; no bad snapshot on the way
     let c3 := match ob.prog with
       | none => []
       | some [t, c, f, run] =>
-        if t = n ∧ c = cnt "S" ob.res ∧ f = cnt "F" ob.res ∧ run = 0 then [] else ["progress-inconsistent"]
+        if t = n ∧ c = cnt "S" ob.res ∧ f = cnt "F" ob.res ∧ run = 0 ∧ c + f + cnt "C" ob.res = ob.res.length
+        then [] else ["progress-inconsistent"]
       | some _ => ["progress-inconsistent"]
+    let c3 := if ob.bad ∧ c3.isEmpty then ["progress-inconsistent"] else c3
+    -- result.rs: the three counts partition the results and agree with the summary's counters
+    let c5 := match ob.b with
+      | [sc, fc, cc, al, rate] =>
+        if sc = cnt "S" ob.res ∧ fc = cnt "F" ob.res ∧ cc = cnt "C" ob.res ∧ sc + fc + cc = ob.res.length
+           ∧ (al = 1 ↔ sc = ob.res.length) ∧ rate = 1 then [] else ["counts-mismatch"]
+      | _ => ["counts-mismatch"]
+    let c2 := if c2.isEmpty then c5 else c2
     -- stop-on-error: a job provably started after a failure was recorded (same worker thread, later)
     -- must not have entered its operation
     let failedIdx := (ob.res.filter fun m => m.2 = "F").map (·.1)
@@ -170,6 +198,14 @@ def handle (req impl : String) : String × String :=
   | some r =>
     if impl.startsWith "unsupported" then (impl, "na") else
     let (finals, _) := reachableFinals r
+    -- the property quantifies over parallelism >= 1; a pool without worker threads is only
+    -- compared with the model
+    if r.par = 0 then
+      let obs := impl.splitOn "|"
+      match obs.filter fun o => ¬ finals.contains o with
+      | [] => (impl, "na")
+      | o :: _ => ("unreachable:" ++ o, "na")
+    else
     let obs := impl.splitOn "|"
     let unreach := obs.filter fun o => ¬ finals.contains o
     let model := match unreach with
